@@ -585,6 +585,9 @@ func genCase(t *rapid.T) Case {
 				o.Inject = &in
 			}
 			c.Ops = append(c.Ops, o)
+		case c.SyncMuts && k >= 15 && k < 17:
+			// per-mutation sync: an explicit full sync between unpushed source changes
+			c.Ops = append(c.Ops, Op{Via: "sync"})
 		case k < 17:
 			c.Ops = append(c.Ops, Op{Via: "client", Step: gen.GenStep(t, sc, gen.HistoryOpts{Ops: []string{"add", "remove", "set"}, NoDup: true}, lbl)})
 		case k == 17:
